@@ -50,18 +50,18 @@ EXPLANATION = ("Theorem half (weak): in a small effect language with by-referenc
                "snapshot correspondence on the real code (pre = post after every call of a sequence) and equality of "
                "answers between re-used and fresh objects, evaluated in Coq.")
 
-POOLS = [[1, 1, 2, 2, 3], [0, 1, 2, 3], ["1/2", "3/2", 1, 2], [2, 2, 2]]
+POOLS = [[1, 1, 2, 2, 3], [0, 1, 2, 3], ["1/2", "3/2", 1, 2], [2, 2, 2], [0, 0, 1, 2]]
 
 # entry ids of Model/Effects.v
 E_GREEDY, E_MAXW, E_MES, E_MESIT, E_PHRAG, E_COMPL, E_INCR, E_POP, E_SWC, E_SAT, E_RO, E_EFFS, E_EFFSS, E_LOSS = range(14)
 
 CALLS = ["greedy", "greedy_satprof", "maxwelfare", "mes", "mes_satprof", "mes_irr", "mes_iter", "phragmen",
-         "phragmen_irr", "completion", "completion_irr", "increase", "increase_irr", "increase_mes_satprof",
+         "phragmen_irr", "completion", "completion_irr", "increase", "increase_irr", "increase_phragmen",
          "popularity", "swc", "satprofile", "sat_calls", "stats", "jr", "priceable", "project_loss",
          "eff_support", "eff_supports", "cohesive", "validate_price"]
 ENTRY = {"greedy": E_GREEDY, "greedy_satprof": E_GREEDY, "maxwelfare": E_MAXW, "mes": E_MES, "mes_satprof": E_MES,
          "mes_irr": E_MES, "mes_iter": E_MESIT, "phragmen": E_PHRAG, "phragmen_irr": E_PHRAG, "completion": E_COMPL,
-         "completion_irr": E_COMPL, "increase": E_INCR, "increase_irr": E_INCR, "increase_mes_satprof": E_INCR,
+         "completion_irr": E_COMPL, "increase": E_INCR, "increase_irr": E_INCR, "increase_phragmen": E_INCR,
          "popularity": E_POP, "swc": E_SWC, "satprofile": E_SAT, "sat_calls": E_SAT, "stats": E_RO, "jr": E_RO,
          "priceable": E_RO, "project_loss": E_LOSS, "eff_support": E_EFFS, "eff_supports": E_EFFSS,
          "cohesive": E_RO, "validate_price": E_RO}
@@ -69,7 +69,7 @@ SOLVER_CALLS = {"priceable"}
 
 
 def budget(tier):
-    return 420 if tier == "quick" else 5000
+    return 600 if tier == "quick" else 6000
 
 
 def gen(rng, i, tier):
@@ -105,8 +105,10 @@ def gen(rng, i, tier):
     k = rng.choice([1, 2, 2, 3, 3, 4])
     pool_calls = [c for c in CALLS if c not in SOLVER_CALLS] if rng.random() < 0.85 else CALLS
     calls = [rng.choice(pool_calls) for _ in range(k)]
+    if rng.random() < 0.12:
+        calls[rng.randrange(k)] = "priceable"
     if i % 7 == 0:
-        calls[0] = rng.choice(["increase", "increase_irr", "increase_mes_satprof", "eff_support", "eff_supports"])
+        calls[0] = rng.choice(["increase", "increase_irr", "increase_phragmen", "eff_support", "eff_supports"])
     return {"costs": [pb.qs(c) for c in costs], "budget": pb.qs(B), "ballots": ballots,
             "multi": rng.random() < 0.4, "init": sorted(init), "alloc": sorted(alloc),
             "sat": rng.choice(["cost", "card"]), "calls": calls,
@@ -293,7 +295,7 @@ def do_call(name, o, case):
     if name == "increase_irr":
         return exhaustion_by_budget_increase(inst, prof, method_of_equal_shares, params, initial_budget_allocation=init,
                                              budget_step=step, resoluteness=False)
-    if name == "increase_mes_satprof":
+    if name == "increase_phragmen":
         return exhaustion_by_budget_increase(inst, prof, sequential_phragmen, {}, initial_budget_allocation=init,
                                              budget_step=step, exhaustive_stop=False,
                                              budget_bound=inst.budget_limit + 3 * step)
@@ -362,14 +364,23 @@ def impl(case):
     o = build(case)
     pre = [enc(snapshot(o[k]), it) for k in SHARED]
     posts, shared_ans, fresh_ans = [], [], []
+    raised = []
+
+    def attempt(name, objs):
+        # an exception of a call is part of its answer (a call that raises only because an earlier call polluted
+        # a shared dictionary must still be followed by the snapshot that shows the pollution)
+        try:
+            return ans(do_call(name, objs, case))
+        except Exception as e:  # noqa
+            raised.append(name + ": " + type(e).__name__ + ": " + str(e)[:120])
+            return ("s", "raised " + type(e).__name__)
+
     for name in case["calls"]:
-        r = do_call(name, o, case)
-        shared_ans.append(enc(ans(r), it))
+        shared_ans.append(enc(attempt(name, o), it))
         posts.append([enc(snapshot(o[k]), it) for k in SHARED])
     for name in case["calls"]:
-        r = do_call(name, build(case), case)
-        fresh_ans.append(enc(ans(r), it))
-    out = {"pre": pre, "posts": posts, "shared": shared_ans, "fresh": fresh_ans,
+        fresh_ans.append(enc(attempt(name, build(case)), it))
+    out = {"pre": pre, "posts": posts, "shared": shared_ans, "fresh": fresh_ans, "raised": raised,
            "changed": [[k for k, a, b in zip(SHARED, pre, p) if a != b] for p in posts]}
     if case.get("solver"):
         st = pb.solver_state()
@@ -400,7 +411,7 @@ def nontrivial(case, o):
 
 def stats(cases, obs):
     d = {"calls": {}, "sequence_length": {}, "multiprofile": 0, "init_nonempty": 0, "cases_with_solver": 0,
-         "snapshot_nodes_mean": 0}
+         "snapshot_nodes_mean": 0, "calls_that_raised": 0}
     tot = 0
     cnt = 0
 
@@ -417,6 +428,7 @@ def stats(cases, obs):
         d["multiprofile"] += bool(c["multi"])
         d["init_nonempty"] += bool(c["init"])
         d["cases_with_solver"] += bool(c.get("solver"))
+        d["calls_that_raised"] += len(o.get("raised", []))
         tot += sum(size(t) for t in o["pre"])
         cnt += 1
     d["snapshot_nodes_mean"] = round(tot / max(cnt, 1), 1)
